@@ -2,7 +2,7 @@
 # C11 — the statement structure of the anchored C++ functions that the hand model mirrors
 
 Hand-maintained (committed) copy of the statement skeletons of `src/solver.cc` / `include/mp/solver-opt.h` as they were
-when the model in `Model.lean` / `ModelParse.lean` was written against them (ampl/mp 5ace2c7).  The check regenerates
+when the model in `Model.lean` / `ModelParse.lean` was written against them (ampl/mp 084cb26; `skel_FindOption` reviewed for 084cb26: wildcard test added in the synonym branch, mirrored in `findLoop`).  The check regenerates
 `MpVerif.Gen.C11Tok` from the current tree on every run; the theorems `C11_gen_skel_*` in `Props.lean` state that the
 generated skeletons equal these.  When a function's statements change, the theorem fails: the model has to be re-read
 against the new code (and this file updated with it).  Which model function mirrors which skeleton:
@@ -158,6 +158,9 @@ def skel_FindOption : List String := [
   "std::string name_str{name};",
   "for(OptionSet::const_iterator i=options_.begin();i!=options_.end();++i)",
   "  if std::find_if((*i)->inline_synonyms().begin(),(*i)->inline_synonyms().end(),[&name_str](const std::string&syn){return 0==strcasecmp(name_str.c_str(),syn.c_str());})!=(*i)->inline_synonyms().end()",
+  "    if (*i)->is_wildcard()&&wildcardvalues",
+  "      return 0",
+  "    endif",
   "    return*i",
   "  endif",
   "  if wildcardvalues&&(*i)->wc_match(name)",
